@@ -22,7 +22,7 @@ def gen_callable(rng):
     """(features, text, callable, model_sig or None)"""
     sig = kc.gen_sig(rng)
     posonly = 0
-    kind = rng.choice(['plain', 'plain', 'plain', 'posonly', 'partial', 'partial', 'method', 'instance'])
+    kind = rng.choice(['plain', 'plain', 'plain', 'posonly', 'partial', 'partial', 'method', 'instance', 'classmethod', 'partial-method'])
     feats = {'kind': kind, 'kwonly': bool(sig['kwonly']), 'posonly': False, 'partial_fixes_defaulted': False,
              'partial_kw': False}
     text = kc.sig_text(sig)
@@ -68,6 +68,28 @@ def gen_callable(rng):
                 inst.keywords = {'e': 1}
         obj = inst.meth if kind == 'method' else inst
         text = ('bound ' if kind == 'method' else 'instance ') + mtext.split('\n')[0]
+    elif kind in ('classmethod', 'partial-method'):
+        first = 'cls' if kind == 'classmethod' else 'self'
+        msig = dict(sig)
+        msig['params'] = [(first, inspect.Parameter.empty)] + [p for p in sig['params'] if p[0] not in ('self', 'cls')]
+        sig = dict(sig)
+        sig['params'] = [p for p in sig['params'] if p[0] not in ('self', 'cls')]
+        mtext = kc.sig_text(msig, 'meth')
+        ns2 = {}
+        exec(mtext, ns2)
+        if kind == 'classmethod':
+            cls = type('W', (), {'meth': classmethod(ns2['meth'])})
+            obj = cls.meth if rng.random() < 0.5 else cls().meth
+            text = 'classmethod ' + mtext.split('\n')[0]
+        else:
+            cls = type('W', (), {'meth': ns2['meth']})
+            nreq = len([1 for _, d in sig['params'] if d is inspect.Parameter.empty])
+            n = rng.randint(0, nreq)
+            vals = [rng.choice(kc.VALUES) for _ in range(n)]
+            obj = functools.partial(cls().meth, *vals)
+            # the remaining signature, as the caller of the partial sees it
+            sig['params'] = sig['params'][n:]
+            text = 'partial(bound %s, *%r)' % (mtext.split('\n')[0], vals)
     model_sig = sig if kind == 'plain' else None
     return feats, text, obj, model_sig, sig
 
@@ -95,7 +117,7 @@ def outside_fragment(feats):
         return 'K5b'
     if feats['kwonly']:
         return 'K5a'
-    if feats['kind'] == 'partial' and (feats['partial_fixes_defaulted'] or feats['partial_kw']):
+    if feats['kind'] == 'partial' and feats['partial_fixes_defaulted']:
         return 'K5c'
     return None
 
